@@ -14,7 +14,7 @@ import (
 // predicts each round's outcome exactly. This unit judges the "acted on, exactly once" aspect.
 func TestC08_Rounds(t *testing.T) {
 	pbt.Run(t, pbt.Config{Prop: "C08", Unit: "TestC08_Rounds", TrackCurrent: true,
-		Rule: "1..2 publishers, one subscriber (unsegmented or segments of 1..3, own hook or the library's general hook, MaxAsyncConcurrency unset/1/2, plain or discovery transport), two listeners; 2..8 rounds, each publishing 0..3 ads and then running exactly one operation to exact quiescence: announcement, explicit sync, resync (WithAdsResync), sync with an explicit older stop CID (WithStopAdCid), announcement whose sender information has only a non-HTTP address or no address, announcement or explicit sync during which the publisher answers 500 for one block still to be fetched. Oracle (reference model of latest-sync per publisher): a sync that has work hands exactly the blocks between the stop point and the head to the hook, each once, newest first, and leaves latest-sync at the head it acted on; an announcement is never lost (latest-sync at its head, or an error notification); a sync with nothing to do changes nothing. Non-trivial: a round spanned more than one segment, or followed a failed round; distinct by case.",
+		Rule: "1..2 publishers, one subscriber (unsegmented or segments of 1..3, own hook or the library's general hook, MaxAsyncConcurrency unset/1/2, plain or discovery transport), two listeners; 2..8 rounds, each publishing 0..3 ads and then running exactly one operation to exact quiescence: announcement, explicit sync (the publisher named by the AddrInfo's ID or only by the /p2p component of its addresses), resync (WithAdsResync), sync with an explicit older stop CID (WithStopAdCid), announcement whose sender information has only a non-HTTP address or no address, announcement or explicit sync during which the publisher answers 500 for one block still to be fetched. Oracle (reference model of latest-sync per publisher): a sync that has work hands exactly the blocks between the stop point and the head to the hook, each once, newest first, and leaves latest-sync at the head it acted on; an announcement is never lost (latest-sync at its head, or an error notification); a sync with nothing to do changes nothing. Non-trivial: a round spanned more than one segment, or followed a failed round; distinct by case.",
 	}, world.GenRounds, func(c world.RoundsCase) (res pbt.Result) {
 		var rr world.RoundsResult
 		defer func() {
